@@ -569,3 +569,38 @@ def tlc_dump_states(module, cfg, workers=4, timeout=3600):
             st[name.strip()] = parse_tla(val.strip())
         states.append(st)
     return res, states
+
+
+# --------------------------------------------------------------------------
+# binding self-test: a trace specification must reject a corrupted log
+# --------------------------------------------------------------------------
+def binding_selftest(rep, module, log, corrupt, n=30, expect_clause=None):
+    """Takes up to n events of a recorded (accepted) log for which corrupt(event) returns a
+    changed copy, validates the corrupted log and requires every corrupted event to be
+    reported. Raises MachineryError when the specification accepts a corrupted event."""
+    events = read_ndjson(log)
+    header = [e for e in events if e.get("ev") in ("db", "rules", "ref", "solo", "begin")]
+    out, ids = [], []
+    for e in events:
+        if e in header:
+            continue
+        c = corrupt(json.loads(json.dumps(e)))
+        if c is not None:
+            out.append(c)
+            ids.append(c.get("id"))
+        if len(out) >= n:
+            break
+    if not out:
+        return
+    path = log + ".corrupted.ndjson"
+    write_ndjson(path, header + out)
+    _, bad, _ = validate_trace(module, path)
+    os.remove(path)
+    flagged = {b[0] for b in bad if not str(b[-1]).startswith("DRIFT_")}
+    if expect_clause:
+        flagged = {b[0] for b in bad if b[-1] == expect_clause or str(b[-1]).startswith(expect_clause)}
+    missed = [i for i in ids if i not in flagged]
+    if missed:
+        raise MachineryError("binding self-test: %s accepted %d of %d corrupted events" % (module, len(missed), len(ids)))
+    rep.extra.setdefault("binding_self_tests", []).append(
+        "%s: %d corrupted events, all rejected%s" % (module, len(ids), (" (" + expect_clause + ")") if expect_clause else ""))
